@@ -240,7 +240,7 @@ def run_cases(cases):
                 mouts = [bytes.fromhex(x) for x in mo['outs']]
             rep = {'spec': spec, 'mtu': m}
             L = pay_len(spec)
-            agree = (mouts == routs and bool(mo['escaped']) == (resc is not None) and not ridle)
+            agree = (mouts == routs and bool(mo['escaped']) == (resc is not None) and len(ridle) == len(mo.get('idle_escapes', [])))
             if not agree:
                 res['breaks'].append(('model and implementation differ: impl %s esc=%s idle=%s, model %s esc=%s'
                                       % ([len(x) for x in routs], resc, ridle, [len(x) for x in mouts], mo['escaped']), rep))
@@ -455,7 +455,65 @@ def run(chk):
     chk.cov['traces_validated_against_impl'] = sum(r['n'] for r in results)
     run_security(chk)
     run_forward_path(chk)
+    run_cl_failure(chk)
     return
+
+
+def run_cl_failure(chk):
+    ''' A CL sender that raises on the k-th hand-over of a request (transient D-Bus / back-pressure error).
+    Property: nothing over the MTU is ever handed to the CL, and no fragment is lost: the strings handed over are
+    those of the failure-free run (the refused one included — the CL was handed it). Compared with the model
+    (`sendFailing`, theorem C05_cl_failure) and checked by independent monitors. '''
+    rng = chk.rng
+    n = 40 if chk.tier == 'quick' else 400
+    rig = fl.Rig()
+    reqs = []
+    runs = []
+    clock = 900000
+    for i in range(n):
+        L = rng.choice([100, 300, 300, 1000, 3000])
+        spec = mk_spec(L, rng.choice(CRCS), rng.randrange(EXTS), wire=(rng.random() < 0.2), salt=i % 250)
+        if rng.random() < 0.2:
+            spec['as_source'] = False
+        orig = est_size(spec)
+        pre = orig - L + 3 * fl.head_len(L)
+        M = rng.choice([None, orig + 5]) if rng.random() < 0.1 else rng.randrange(pre + 5, max(pre + 6, orig))
+        clock += 17
+        base, besc, bidle = rig.send(spec, M, now_ms=clock)
+        nh = max(1, len(base))
+        fails = sorted(set(rng.randrange(nh) for _ in range(rng.choice([1, 1, 1, 2, 3]))))
+        if i % 7 == 0:
+            fails = [min(2, nh - 1)]          # "the third hand-over raises"
+        outs, esc, idle = rig.send(spec, M, now_ms=clock, fail_on=fails)
+        reqs.append({'op': 'frag.send', 'bundle': fl.spec_json(spec), 'mtu': M, 'now': clock,
+                     'as_source': spec.get('as_source', True), 'fail': fails})
+        runs.append((spec, M, fails, base, outs, esc, idle))
+    mos = chk.driver(reqs)
+    for (spec, M, fails, base, outs, esc, idle), mo in zip(runs, mos):
+        rep = {'spec': spec, 'mtu': M, 'cl_fails_on': fails}
+        chk.case(['clfail', pay_len(spec), M, fails, len(base)], nontrivial=True)
+        chk.count('cl-failure:%s' % ('fragments' if len(base) > 1 else 'single' if base else 'nothing'))
+        try:
+            mouts = [fl.patch_crcs(bytes.fromhex(x)) for x in mo['outs']]
+        except fl.ParseError:
+            mouts = [bytes.fromhex(x) for x in mo['outs']]
+        if mouts != outs or bool(mo['escaped']) != (esc is not None) or len(mo['idle_escapes']) != len(idle):
+            chk.corr_break('CL sender raising on hand-overs %s: impl %s esc=%s idle=%s, model %s esc=%s idle=%s'
+                           % (fails, [len(x) for x in outs], esc, idle, [len(x) for x in mouts], mo['escaped'], mo['idle_escapes']), rep)
+        chk.cov['traces_validated_against_impl'] += 1
+        # independent monitors
+        if M is not None and not (spec['flags'] & 5):
+            over = [len(o) for o in outs if len(o) > M]
+            if over:
+                chk.count('monitor:C05:cl-failure-sends-oversized')
+                chk.violation('C05:cl-failure-sends-oversized',
+                              'the CL sender raised on hand-over(s) %s: afterwards %s octets were handed to the CL on a route with MTU %d'
+                              % (fails, over, M), rep)
+        if outs != base:
+            chk.count('monitor:C05:cl-failure-loses-fragments')
+            chk.violation('C05:cl-failure-loses-fragments',
+                          'the CL sender raised on hand-over(s) %s: handed over %s, without the failure %s (fragments missing or replaced)'
+                          % (fails, [len(x) for x in outs], [len(x) for x in base]), rep)
 
 
 def run_forward_path(chk):
@@ -583,6 +641,14 @@ def replay(chk, path):
         return 0
     spec, m = rep['spec'], rep['mtu']
     rig = fl.Rig()
+    if 'cl_fails_on' in rep:
+        base = rig.send(spec, m)[0]
+        outs, esc, idle = rig.send(spec, m, fail_on=rep['cl_fails_on'])
+        print('MTU %s; without failure the CL is handed %s' % (m, [len(x) for x in base]))
+        print('sender raises on hand-over(s) %s: the CL is handed %s; escaped=%s idle escapes=%s'
+              % (rep['cl_fails_on'], [len(x) for x in outs], esc, idle))
+        bad = outs != base or (m is not None and any(len(o) > m for o in outs))
+        return 1 if bad else 0
     if rep.get('security'):
         rig.enable_security()
     ref = rig.send(spec, None)[0]
